@@ -32,7 +32,7 @@ m = {
     "hooks": {
         "guard": "verif",
         "enable": "go1.26.8 test -c -tags verif -overlay <generated> -modfile <generated> (see ./check); hooks are no-ops without the tag",
-        "baseline_off_cmd": "cd /repo && go test -vet=off -count=1 -timeout 25m ./...",
+        "baseline_off_cmd": "cd /repo && go test -json -vet=off -count=1 -timeout 25m ./...",
         "source_commits": HOOK_COMMITS,
         "add_only": True,
     },
